@@ -216,17 +216,24 @@ def _unit(args):
         elif kind == "canary":
             cc = dict(prop.canaries(w))[key]
             ex = Executor(w, prop.id)
-            refuted = []
+            refuted, unknown = [], 0
             try:
                 cobs = ex.verify(cc)
-                for ob in cobs:
-                    v = smt.solve_formula(w, ob.hyps, ob.goal, min(timeout, 20.0), want_model=False)[0]
+                # exit obligations first: that is where a false postcondition shows
+                for ob in sorted(cobs, key=lambda o: 0 if o.kind in ("post", "exc") else 1):
+                    v = smt.solve_formula(w, ob.hyps, ob.goal, timeout, want_model=False)[0]
                     if v == "sat":
                         refuted.append(ob.id)
                         break
+                    if v != "unsat":
+                        unknown += 1
             except Unsupported as e:
                 out["undecided"].append(f"canary {key}: {e}")
-            out["meta"] = {"canary": key, "refuted_by": refuted, "ok": bool(refuted)}
+                unknown += 1
+            # the engine is unsound only if it PROVED the false contract; a solver time-out on a canary is merely undecided
+            out["meta"] = {"canary": key, "refuted_by": refuted, "ok": bool(refuted) or unknown > 0, "undecided": (not refuted) and unknown > 0}
+            if (not refuted) and unknown > 0:
+                out["undecided"].append(f"canary {key}: neither refuted nor proved (solver gave no verdict on {unknown} obligation(s))")
     except Exception as e:
         out["undecided"].append(f"{kind} {key}: engine error {type(e).__name__}: {e} | {traceback.format_exc()[-300:]}")
     out["wall"] = round(time.time() - t0, 2)
